@@ -171,9 +171,9 @@ def generate(rng, tier, run, seed=0):
         k = rng.randrange(nseg)          # the scheduler: which segment object is operated on next
         sid = sids[k]
         op = rng.choice(['set', 'set', 'get_value', 'get_value', 'get'])
-        ele = rng.choice([1, 1, 2, 3, 4, 5, 8, 12, 17, 25])
+        ele = rng.choice([1, 1, 2, 3, 4, 5, 8, 12, 17, 25] + ([11, 16, 16] if sid == 'ISA' else []))      # ISA11 / ISA16 hold delimiters
         comp = rng.choice([None, None, None, None, 1, 2, 3, 6, 10, 12, 15])
-        if sid == 'ISA' and (ele == 16 or rng.random() < 0.6):
+        if sid == 'ISA' and rng.random() < 0.6:
             comp = None
         r = rng.random()
         others = [x for x in sids if x != sid]
@@ -244,8 +244,8 @@ class SegModel(object):
             self.els.append([''])
             self.join.append(self.sub)
             pad += 1
-        if self.id == 'ISA' and e == 16:
-            self.els[e - 1] = [val]          # ISA16 is always written whole
+        if self.id == 'ISA' and e in (11, 16) and c is None:
+            self.els[e - 1] = [val]          # ISA11 and ISA16 hold delimiters: an element-level write is never split
             self.join[e - 1] = self.ele_term
         elif c is None:
             self.els[e - 1] = [val]
